@@ -54,6 +54,10 @@ class Literal(Exception):
         return "{%d}" % self.value
 
 
+class _LiteralArgument(bytes):
+    """A command argument that is already formatted as a literal."""
+
+
 def authentication_required(meth):
     """Simple class method decorator.
 
@@ -221,18 +225,25 @@ class Client:
     def __prepare_args(self, args: List[Any]) -> List[bytes]:
         """Format command arguments before sending them.
 
-        Command arguments of type string must be quoted, the only
-        exception concerns size indication (of the form {\d\+?}).
+        Command arguments of type string must be quoted (with
+        backslashes and double quotes escaped) or, when they contain
+        characters a quoted string can't hold, sent as literals. The
+        only exception concerns arguments already formatted as
+        literals (see __prepare_content).
 
         :param args: list of arguments
         :return: a list for transformed arguments
         """
         ret = []
         for a in args:
+            if isinstance(a, _LiteralArgument):
+                ret += [a]
+                continue
             if isinstance(a, bytes):
-                if self.__size_expr.match(a):
-                    ret += [a]
+                if b"\r" in a or b"\n" in a or b"\0" in a:
+                    ret += [b"{%d+}%s%s" % (len(a), CRLF, a)]
                 else:
+                    a = a.replace(b"\\", b"\\\\").replace(b'"', b'\\"')
                     ret += [b'"' + a + b'"']
                 continue
             ret += [bytes(str(a).encode("utf-8"))]
@@ -248,7 +259,7 @@ class Client:
         :return: transformed script as bytes
         """
         bcontent: bytes = content.encode("utf-8")
-        return b"{%d+}%s%s" % (len(bcontent), CRLF, bcontent)
+        return _LiteralArgument(b"{%d+}%s%s" % (len(bcontent), CRLF, bcontent))
 
     def __send_command(
         self,
